@@ -131,7 +131,7 @@ PROPS = {
     'C08': {
         'suites': [('caches', 400, 4000, ''), ('cachel', 400, 4000, ''), ('cachesa', 200, 2000, ''), ('cachet', 150, 1500, '')],
         'rule': CACHE_RULE % "Cache and AsyncCache" + "every write carries a unique value; updates racing evictions, removes racing admissions, sweeps, rejections, validator vetoes, dropped inserts; suite cachel is lifecycle-heavy (half inserts, the rest wait / clear / close / remove from three clients, both flavours) so that inserts straddle the clear and the stop handshake of close(); callbacks are recorded and compared step by step; monitors: a value handed to callbacks twice, an accepted value neither resident nor handed back nor dropped by clear / overwritten in place (at quiescence), a lookup returning a value after it was handed back; the corpus replays known finding D9 (index collision: an admitted value silently declined by the store)",
-        'assumptions': COMMON_ASSUMPTIONS + ["keys are told apart by their index hash (every conflict hash 0): with colliding keys the statement is false (known finding D9, machine-checked witness C08_collision_refuted)", "no remove reported an error (a Delete lost to a full insert buffer)", "a get_mut write replaces the value in place: the overwritten value is dropped by the assignment, not by the cache (counted under 'lost', like the values clear() drops)"],
+        'assumptions': COMMON_ASSUMPTIONS + ["keys are told apart by their index hash (every conflict hash 0): with colliding keys the statement is false (known finding D9, machine-checked witness C08_collision_refuted)", "a get_mut write replaces the value in place: the overwritten value is dropped by the assignment, not by the cache (counted under 'lost', like the values clear() drops)"],
         'partial': "",
     },
     'C04': {
